@@ -1,6 +1,6 @@
 """C13 — every operation terminates within bounded work.
 E-CAB coarse: every public operation is run on the representative of every path class under a generous
-wall-time budget (20 s for networks of <= 4 variables; ordinary classes take milliseconds).  A representative
+CPU-time budget (20 s of process CPU time for networks of <= 4 variables, with a 300 s wall-clock backstop; ordinary classes take milliseconds).  A representative
 that exceeds the budget is replayed on the clean code with a 60 s time-out and reported if it hangs again.
 Inside the opaque attractor region (symbolic_attractor_test) the path is not class-constant, so in coarse tasks the
 statement is per representative there; the tasks tagged 'fine' run the region on vertex-set handles with a symbolic
@@ -83,7 +83,7 @@ def main(tier, seed, t0, selftest=False):
     results = common.run_tasks(tasks(tier, seed, selftest))
     return common.finish(PROP, tier, seed, "model_checking", results, t0, selftest=selftest, hang_is_violation=True, functions=FUNCTIONS,
                          replay_timeout=60, max_replays=3,
-                         bounds={"budget": "20 s wall per path-class representative (<= 4 variables); replay time-out 60 s",
+                         bounds={"budget": "20 s CPU time (300 s wall backstop) per path-class representative (<= 4 variables); replay time-out 60 s wall",
                                  "operations": "single: " + ",".join(SINGLE) + "; queries " + ",".join(QUERY) + " on a symbolic node after prefixes " + str(PREFIX),
                                  "families": "U2, D3, P:SW2+SW2, B22 (quick, time-boxed); + U3 cubes, CH4, S2C2 (thorough)",
                                  "note": "termination inside the opaque attractor region is established per representative, not per class"},
